@@ -227,7 +227,9 @@ def pack_generic_serializable_type(spec: ValueSpec) -> Optional[Expression]:
         if issubclass(spec.origin_type, GenericSerializableType):
             type_args = get_args(spec.type)
             spec.builder.add_type_modules(*type_args)
-            type_arg_names = ", ".join(list(map(type_name, type_args)))
+            type_arg_names = ", ".join(
+                map(spec.builder.get_type_name_identifier, type_args)
+            )
             return f"{spec.expression}._serialize([{type_arg_names}])"
 
 
